@@ -7,7 +7,8 @@ root = os.path.dirname(os.path.dirname(os.path.abspath(__file__)))
 wt = "/tmp/km-repo"
 subprocess.run(f"git -C /repo worktree remove --force {wt}", shell=True, capture_output=True)
 subprocess.run(f"git -C /repo worktree add -q --detach {wt} HEAD", shell=True, check=True)
-env = dict(os.environ, VERIF_REPO=wt, CARGO_NET_OFFLINE="true")
+os.makedirs("/tmp/ev-seeded", exist_ok=True)
+env = dict(os.environ, VERIF_REPO=wt, CARGO_NET_OFFLINE="true", VERIF_EVIDENCE_DIR="/tmp/ev-seeded")
 props = [json.loads(l)["id"] for l in open(os.path.join(root, "properties.jsonl"))]
 seeds = sys.argv[1:] or sorted(os.listdir(os.path.join(root, "seeded")))
 results = {}
